@@ -52,8 +52,14 @@ pub fn eval(ctx: &Ctx, case: &Case) {
             let (d, k) = (hb(d), hb(k));
             let msg = content(msg_class, *msg_len, ctx.seed);
             let pk_ref = sm2::g_mul(&d);
-            let pk = public_key(&pk_ref);
-            let sk = private_key(&d);
+            // tag "key-object-Z=<hex>": both key objects hold the public point in that Jacobian representation
+            let (pk, sk) = match tag.strip_prefix("key-object-Z=") {
+                Some(l) => {
+                    let pk = gm_sm2::key::Sm2PublicKey { point: lib_point(&pk_ref, &hb(l)) };
+                    (pk.clone(), gm_sm2::key::Sm2PrivateKey { d: scalar(&d), public_key: pk })
+                }
+                None => (public_key(&pk_ref), private_key(&d)),
+            };
             let mut g = SplitMix::new(ctx.seed, "c05fallback");
             let mut queue = vec![cand(&k)];
             for _ in 0..6 {
@@ -285,6 +291,15 @@ pub fn run(ctx: &Arc<Ctx>) {
     ctx.cov("openssl_ciphertexts", json!(openssl_cts().len()));
     ctx.sample(serde_json::to_value(&cases[0]).unwrap());
     ctx.sample(serde_json::to_value(&cases[100]).unwrap());
+    {
+        let p = &sm2::params().p;
+        let mut g = SplitMix::new(ctx.seed, "c05lambda");
+        for lam in [BigUint::from(2u32), p - 1u32, g.nonzero_below(p)] {
+            for (c1c3c2, compressed) in [(false, false), (true, true)] {
+                cases.push(Case::Enc { d: ANNEX_D.into(), k: ANNEX_K.into(), msg_len: 33, msg_class: "seed".into(), c1c3c2, compressed, tag: format!("key-object-Z={}", hexbig(&lam)) });
+            }
+        }
+    }
     run_cases(ctx, &cases, 8, eval);
     crate::cold::check(ctx, "C05");
 }
